@@ -136,8 +136,18 @@ def explain_pair(o, reasons, kind, q, w):
             if r == 3 and class_env(o, by_id[b]):
                 return "header-class-attribute"
             return REASON_FOCUS.get(r)
+    if reasons.get(w, 0) not in (0, 10) and w not in o.skip:
+        # the model puts the token w itself outside the domain (its PyName is not the one of its binding): it is missing
+        # from the answers for its binding and may turn up in others, whoever asks
+        r = reasons[w]
+        return "header-class-attribute" if (r == 3 and class_env(o, by_id[w])) else REASON_FOCUS.get(r)
     if reasons.get(q) == 10 or q in o.skip:
         return None
+    if kind == "missing" and reasons.get(q, 0) not in (0, 10):
+        # the model puts the QUERY token outside the domain (its PyName is not the one of its binding): every token of
+        # its binding is then missing from the answer, whatever the model says about that token
+        r = reasons[q]
+        return "header-class-attribute" if (r == 3 and class_env(o, by_id[q])) else REASON_FOCUS.get(r)
     if reasons.get(w) == 10 or w in o.skip:
         # the model is silent about w.  Only when the oracle has no expectation for w either (its binding is not
         # static) may the disagreement follow the query token, which the model puts outside the domain
@@ -177,6 +187,23 @@ def class_env(o, t):
     for n in ast.walk(info.tree):
         if isinstance(n, ast.Name) and (n.lineno, n.col_offset) == (t.line, t.col):
             return isinstance(info.where.scope_of.get(id(n)), ast.ClassDef)
+    return False
+
+
+def imports_resolvable(tree):
+    import importlib.util
+    for n in ast.walk(tree):
+        tops = []
+        if isinstance(n, ast.Import):
+            tops = [a.name.split(".")[0] for a in n.names]
+        elif isinstance(n, ast.ImportFrom) and not n.level and n.module:
+            tops = [n.module.split(".")[0]]
+        for t in tops:
+            try:
+                if importlib.util.find_spec(t) is not None:
+                    return True
+            except (ImportError, ValueError):
+                pass
     return False
 
 
@@ -300,6 +327,11 @@ def check_modules(ctx, sources, stream):
             # the patched AST cannot be built for this text (MismatchedTokenError and friends): C08's findings
             ctx.count("patchedast-fails(C08):" + stream)
             continue
+        if stream == "c15" and imports_resolvable(o.tr.tree):
+            # the one-module model is about projects in which no import resolves (a `from __future__ import ..` of the
+            # foreign generator does resolve, into the standard library)
+            ctx.count("skipped_resolvable_import:" + stream)
+            continue
         if self_named_base(o.tr.tree):
             # `class x(x)` inside a scope that has another x: the superclass relation rope builds depends on the order
             # its inference runs in (C15 keeps cyclic superclass relations out of its model too)
@@ -411,6 +443,20 @@ def check_projects(ctx, n):
         files = dict(c02_witness.EXAMPLE_PROJECT) if k == 0 else c02_gen.gen_project(ctx.rng)
         if files is None:
             continue
+        if k % 3 == 1:
+            # package layout: the importing module lives in a package that has a module called lib of its own;
+            # `import lib` is absolute and still means the top-level lib.py (project.find_module: source folders first)
+            # (the decoy binds the same top-level names and nothing else: no builtins, no imports - any hit in it is wrong)
+            tops = []
+            for st in ast.parse(files[L.LIBNAME]).body:
+                if isinstance(st, (ast.FunctionDef, ast.ClassDef)):
+                    tops.append(st.name)
+                elif isinstance(st, ast.Assign):
+                    tops += [t_.id for t_ in st.targets if isinstance(t_, ast.Name)]
+            decoy = "".join("%s = 0\n" % x for x in sorted(set(tops)))
+            files = {L.LIBNAME: files[L.LIBNAME], "pkg/__init__.py": "", "pkg/lib.py": decoy,
+                     "pkg/" + L.MODNAME: files[L.MODNAME]}
+            ctx.count("multi_projects_package_layout")
         obs = L.observe_project(files)
         if obs is None:
             ctx.count("untranslatable:multi")
@@ -493,6 +539,14 @@ def judge_and_report(ctx, files, obs, stream, extra=None, project_model=None, ig
             ctx.traces += ntok - len(unmodelled)
             ctx.count("multi_tokens_compared_with_project_model", ntok - len(unmodelled))
             if code2 not in (0, 9):
+                # the oracle first: a wrong answer is reported with the project as the failing input
+                for v in L.judge_project(obs)[0]:
+                    if v["kind"] in ("stray", "exception", "rename", "missing"):
+                        ctx.violation(dict(extra or {}, kind="project", files=files, focus="unexplained", verdict=v, stream=stream),
+                                      "two-module project (" + stream + "): the model and rope disagree and rope's answer is "
+                                      "wrong by the oracle (%s, %s token %r, %r)"
+                                      % (v["kind"], v["module"], v["query"], (v.get("tokens") or v.get("offsets") or [None])[0]))
+                        return
                 c2, tok2 = code2 % 100, code2 // 100
                 ctx.violation(dict(extra or {}, kind="project", files=files, focus="coq2:%d" % c2, token=tok2, stream=stream,
                                    broken="correspondence of coq/C02/Project.v with rope (%s): "
@@ -519,7 +573,10 @@ def judge_and_report(ctx, files, obs, stream, extra=None, project_model=None, ig
             """the model does not speak about the token"""
             # (the tokens kept out of the two-module comparison because of a same-line homonym are still tokens the
             # one-module model speaks about)
-            return reasons[m].get(i) == 10 or i in obs[m].skip
+            one = reasons[m].get(i) == 10 or i in obs[m].skip
+            if unmodelled is not None:
+                return one and L.enc(m, i) in unmodelled     # silent only if neither model speaks about it
+            return one
 
         def explain(kind, q, w):
             """as explain_pair, for tokens of two modules: q, w are (module, token id)"""
@@ -534,6 +591,11 @@ def judge_and_report(ctx, files, obs, stream, extra=None, project_model=None, ig
                 if obs[m].cat[i] == "attr" and isinstance(k, tuple) and k[0] == "var" \
                         and (k[1], t.name) in obs[m].info.hidden_attr:
                     return "instance-attribute-assigned-in-for-or-with"
+                pk = keys.get((m, i))
+                if obs[m].cat[i] == "attr" and isinstance(pk, tuple) and len(pk) == 3 and pk[0] in obs \
+                        and isinstance(pk[1], tuple) and pk[1][0] == "var" \
+                        and (pk[1][1], pk[2]) in obs[pk[0]].info.hidden_attr:
+                    return "instance-attribute-assigned-in-for-or-with"     # the attribute of a class of the other module
             if same_line_homonym(obs, keys, [q, w]):
                 return "imported-name-same-line-homonym"
             for (m, i) in (q, w):
@@ -543,8 +605,16 @@ def judge_and_report(ctx, files, obs, stream, extra=None, project_model=None, ig
                     if r == 3 and class_env(obs[m], by_tok(obs[m], b)):
                         return "header-class-attribute"
                     return REASON_FOCUS.get(r)
+            if not silent(*w) and reason_of(*w) not in (0, 10):
+                r = reason_of(*w)
+                return "header-class-attribute" if (r == 3 and class_env(obs[w[0]], by_tok(obs[w[0]], w[1]))) \
+                    else REASON_FOCUS.get(r)
             if silent(*q):
                 return None
+            if kind == "missing" and reason_of(*q) not in (0, 10):
+                r = reason_of(*q)
+                return "header-class-attribute" if (r == 3 and class_env(obs[q[0]], by_tok(obs[q[0]], q[1]))) \
+                    else REASON_FOCUS.get(r)
             if silent(*w):
                 r = reason_of(*q)
                 return REASON_FOCUS.get(r) if (keys[w] == "U" and kind == "extra" and r not in (0, 10)) else None
@@ -565,7 +635,7 @@ def judge_and_report(ctx, files, obs, stream, extra=None, project_model=None, ig
             if (v["module"], v["query"]) in ignore:
                 ctx.violation({"kind": "history", "focus": "answer-depends-on-query-history"}, "known departure: history")
                 continue
-            pairs = [(None, None)] if v["kind"] in ("stray", "exception") else \
+            pairs = [(None, None)] if v["kind"] in ("stray", "exception", "rename") else \
                 [((v["module"], v["query"]), tuple(w)) for w in v["tokens"]]
             for (q, w) in pairs:
                 focus = None if q is None else explain(v["kind"], q, w)
@@ -580,7 +650,7 @@ def judge_and_report(ctx, files, obs, stream, extra=None, project_model=None, ig
                     ctx.count(focus)
                 else:
                     ctx.violation({"kind": "project" if focus == "imported-name-same-line-homonym" else "module",
-                                   "files": files, "src": files["mod_under_test.py"], "focus": focus, "stream": stream},
+                                   "files": files, "src": [v_ for k_, v_ in files.items() if k_.endswith(L.MODNAME)][0], "focus": focus, "stream": stream},
                                   "known departure: " + focus)
 
 
@@ -656,7 +726,17 @@ def run(ctx):
         return c02_gen.gen_module(rng, tuple(rng.sample(c02_gen.FEATURES, k)))
 
     batch(plus, n_plus, "plus")
-    batch(lambda: c15_gen.gen_module(rng, ()), n_c15, "c15")
+    def foreign():
+        for _ in range(6):
+            src = c15_gen.gen_module(rng, ())
+            try:
+                if src and not imports_resolvable(ast.parse(src)):
+                    return src
+            except SyntaxError:
+                pass
+        return None
+
+    batch(foreign, n_c15, "c15")
     if not ctx.too_many():
         check_projects(ctx, ctx.scale(25, 200))
     if not ctx.too_many():
